@@ -78,3 +78,102 @@ Theorem C01_window_refuted :
   /\ gaps_b act_window (grid_of (endpoints (narrow_hot ++ narrow_cold ++ []))) = false.
 Proof. exact window_refuted. Qed.
 Print Assumptions C01_window_refuted.
+
+(* ---- C01 for EVERY zone at EVERY level of the hierarchy (composition with C10, proofs/ComposeZonesCascade.v) ----
+   An input stream `x : zin` carries identity, zone label, name and numeric data (`z_data x : sin` = supply, target,
+   dt_cont, heat_flow); `to_istream x` is what zone-tree construction reads of it; `model_synth root (map to_istream xs)`
+   is the synthesised zone tree (one `zobs` per zone with the IDENTITIES in its hot / cold collection);
+   `zone_hot_views xs z` / `zone_cold_views xs z` are the shifted-scale views of the streams zone z HOLDS (identities looked
+   up in the input list) -- the data the zone's cascade runs on; `labelled_into p xs` are the input streams LABELLED INTO
+   zone p (non-empty label whose path has p as a prefix).  Stream identities are distinct. *)
+From OP Require Import model.Stream model.CascadeE2E model.ZoneTree proofs.ZoneTreeFinal proofs.InvarianceModel proofs.ComposeZonesCascade.
+From Coq Require Import Permutation String.
+
+(* the bridge: a zone with subzones (any level), and the root, runs its cascade on a permutation of the views of the
+   streams labelled into it -- hot and cold separately (C10_zone_conservation carried to the numeric data), *)
+Theorem C01_zone_holds_the_labelled_streams :
+  forall root xs out, NoDup (map z_id xs) -> model_synth root (map to_istream xs) = Ok out ->
+  forall z, In z out -> is_leaf out z = false \/ zo_path z = [] ->
+  Permutation (zone_hot_views xs z) (hot_views shifted_view (labelled_into (zo_path z) xs))
+  /\ Permutation (zone_cold_views xs z) (cold_views shifted_view (labelled_into (zo_path z) xs)).
+Proof. exact zone_views_are_the_labelled_streams. Qed.
+Print Assumptions C01_zone_holds_the_labelled_streams.
+
+(* and the model of the stage does not depend on the order of its streams (identical table), *)
+Theorem C01_stage_ignores_stream_order : forall w hs hs' cs cs' extra extra',
+  Permutation hs hs' -> Permutation cs cs' -> Permutation extra extra' ->
+  stage_model w hs cs extra = stage_model w hs' cs' extra'.
+Proof. exact stage_model_perm. Qed.
+Print Assumptions C01_stage_ignores_stream_order.
+
+(* hence: for every input stream list and every zone of the synthesised tree that has subzones (and the root), the targets
+   the model computes for that zone from the streams it holds are the exact reference values of the streams labelled into
+   that zone (end points rounded to the grid's 6 decimals), under the C01 hypotheses on those streams
+   (rounded spans positive, CP >= 0, Robust grid: gaps > window + 5e-7). *)
+Theorem C01_every_zone_of_the_tree :
+  forall root xs out, NoDup (map z_id xs) -> model_synth root (map to_istream xs) = Ok out ->
+  forall z extra, In z out -> is_leaf out z = false \/ zo_path z = [] ->
+  let sub := labelled_into (zo_path z) xs in
+  let hs := hot_views shifted_view sub in let cs := cold_views shifted_view sub in
+  wfs_b (map roundv hs) = true -> wfs_b (map roundv cs) = true -> hs ++ cs <> [] ->
+  gaps_b (act_window + delta6) (grid_of (endpoints (hs ++ cs ++ extra))) = true ->
+  let p := stage_model act_window (zone_hot_views xs z) (zone_cold_views xs z) extra in
+  Qh_of p == Qh_star (map roundv hs) (map roundv cs) /\ Qc_of p == Qc_star (map roundv hs) (map roundv cs)
+  /\ Qr_of p == Qr_star (map roundv hs) (map roundv cs).
+Proof. exact every_zone_targets_exact. Qed.
+Print Assumptions C01_every_zone_of_the_tree.
+
+(* the same with the hypotheses checked on the zone's OWN stream set (what the zone holds) instead of the labelled inputs *)
+Theorem C01_every_zone_of_the_tree_held :
+  forall root xs out, NoDup (map z_id xs) -> model_synth root (map to_istream xs) = Ok out ->
+  forall z extra, In z out -> is_leaf out z = false \/ zo_path z = [] ->
+  let hz := zone_hot_views xs z in let cz := zone_cold_views xs z in
+  let sub := labelled_into (zo_path z) xs in
+  let hs := hot_views shifted_view sub in let cs := cold_views shifted_view sub in
+  wfs_b (map roundv hz) = true -> wfs_b (map roundv cz) = true -> hz ++ cz <> [] ->
+  gaps_b (act_window + delta6) (grid_of (endpoints (hz ++ cz ++ extra))) = true ->
+  let p := stage_model act_window hz cz extra in
+  Qh_of p == Qh_star (map roundv hs) (map roundv cs) /\ Qc_of p == Qc_star (map roundv hs) (map roundv cs)
+  /\ Qr_of p == Qr_star (map roundv hs) (map roundv cs).
+Proof. exact every_zone_targets_exact_held. Qed.
+Print Assumptions C01_every_zone_of_the_tree_held.
+
+(* end points on the 6-decimal lattice: the reference is the exact optimum of the labelled streams themselves *)
+Theorem C01_every_zone_of_the_tree_lattice :
+  forall root xs out, NoDup (map z_id xs) -> model_synth root (map to_istream xs) = Ok out ->
+  forall z extra, In z out -> is_leaf out z = false \/ zo_path z = [] ->
+  let sub := labelled_into (zo_path z) xs in
+  let hs := hot_views shifted_view sub in let cs := cold_views shifted_view sub in
+  wfs hs -> wfs cs -> hs ++ cs <> [] -> on_lattice (endpoints (hs ++ cs ++ extra)) ->
+  gaps_b act_window (grid_of (endpoints (hs ++ cs ++ extra))) = true ->
+  let p := stage_model act_window (zone_hot_views xs z) (zone_cold_views xs z) extra in
+  Qh_of p == Qh_star hs cs /\ Qc_of p == Qc_star hs cs /\ Qr_of p == Qr_star hs cs.
+Proof. exact every_zone_targets_exact_lattice. Qed.
+Print Assumptions C01_every_zone_of_the_tree_lattice.
+
+(* the remaining zones are the generated leaves (unit operations, bottom level): such a zone holds exactly one stream --
+   the one it was generated for, labelled into the leaf's parent, in the hot collection iff it is hot -- and its targets
+   are the exact reference values of that single stream. *)
+Theorem C01_every_leaf_zone_of_the_tree :
+  forall root xs out, NoDup (map z_id xs) -> model_synth root (map to_istream xs) = Ok out ->
+  forall z extra, In z out -> is_leaf out z = true -> zo_path z <> [] ->
+  exists x, In x xs /\ nonempty (z_label x) = true /\ removelast (zo_path z) = split_label (z_label x) /\
+  let hs := hot_views shifted_view [z_data x] in let cs := cold_views shifted_view [z_data x] in
+  wfs_b (map roundv hs) = true -> wfs_b (map roundv cs) = true ->
+  gaps_b (act_window + delta6) (grid_of (endpoints (hs ++ cs ++ extra))) = true ->
+  let p := stage_model act_window (zone_hot_views xs z) (zone_cold_views xs z) extra in
+  Qh_of p == Qh_star (map roundv hs) (map roundv cs) /\ Qc_of p == Qc_star (map roundv hs) (map roundv cs)
+  /\ Qr_of p == Qr_star (map roundv hs) (map roundv cs).
+Proof. exact every_leaf_zone_targets_exact. Qed.
+Print Assumptions C01_every_leaf_zone_of_the_tree.
+
+(* non-vacuity: a three-level tree (Site / A / A/B / C + generated unit operations) whose zones satisfy every hypothesis;
+   zone A holds a hot and a cold stream and recovers 800 kW, zone A/B holds the cold stream only, the root holds all three *)
+Theorem C01_every_zone_example :
+  (match model_synth "Site"%string (map to_istream ex_xs) with Ok out => map zo_path out | Err _ => [] end)
+    = [[]; ["A"]; ["A"; "B"]; ["C"]; ["A"; "O1"]; ["A"; "B"; "O1"]; ["C"; "O1"]]%string
+  /\ ex_hyps [] = true /\ ex_hyps ["A"%string] = true /\ ex_hyps ["A"; "B"]%string = true /\ ex_hyps ["C"%string] = true
+  /\ ex_targets ["A"%string] = Some (0, 200, 800) /\ ex_targets ["A"; "B"]%string = Some (800, 0, 0)
+  /\ ex_targets [] = Some (0, 800, 800) /\ ex_targets ["C"; "O1"]%string = Some (0, 600, 0).
+Proof. exact ex_tree. Qed.
+Print Assumptions C01_every_zone_example.
